@@ -78,6 +78,16 @@ CHECKS = {
              'bit-level f32 formatting (compared bitwise), behaviour that depends on an option.',
         technique='MIR symbolic execution with symbolic byte-segment buffers + z3 equality queries; native reopen replay',
     ),
+    'C17': dict(
+        category='model_checking',
+        text='MIR symbolic execution of FormatVersion::parse_file_header over every byte string of length 0..6 (bytes symbolic, z3 decides Some(v) iff "FJL"+v, v in 1..=3), '
+             'of check_version (accepts exactly V3), of Database::recover and create_new (ordering of version check, directory lock, journal recovery/creation, marker write+sync, '
+             'directory fsyncs; a refused open performs no mutating call), of the lock-guard sharing in keyspace handles, and of the Drop impls (wait for the thread counter, clear '
+             'cyclic holders, journal sync). Counterexamples are replayed natively: marker contents from the model, second open while handles live, directory fingerprint.',
+        design_ref='DESIGN.md §5 C17',
+        note='Not applicable (assumed, F2/F3): that the OS file lock really excludes another process/handle and that joined threads have stopped. Marker longer than 6 bytes behaves like its prefix.',
+        technique='MIR symbolic execution over symbolic byte arrays + z3; event-order obligations; native replay',
+    ),
 }
 
 NOT_YET = {}
